@@ -20,6 +20,7 @@
 //   tickw <w>       advance past every deadline, tick worker w        (same)
 //   eject <w> <bytes>   memory-overrun signal to worker w             (same)
 //   drain           sendTraces consumes one decided trace             obs  <t> <sid>:<rate>:<marker>,… | empty
+//   flush           drain until tracesToSend is empty                obs  <t> <…>;<t> <…>;… | empty
 //   reload <gen> <dry>  swap the rules (generation) and DryRun        (no obs)
 //   check           obs buf=<buffered trace ids> pending=<len tracesToSend>
 package main
@@ -154,6 +155,9 @@ func (comp) Gen(r *kit.Rng, maxLen int, tier string) kit.Case {
 				ops = append(ops, "drain")
 			}
 		case 6:
+			if r.Chance(30) {
+				ops = append(ops, "flush")
+			}
 			ops = append(ops, "check")
 		case 7: // burst: several spans of one trace, then its decision
 			t := r.Intn(u)
@@ -166,17 +170,14 @@ func (comp) Gen(r *kit.Rng, maxLen int, tier string) kit.Case {
 	// run to quiescence: every worker ticks until its buffer is empty, sendTraces drains everything
 	rounds := 1
 	if max > 0 {
-		rounds = u
+		rounds = (u + max - 1) / max
 	}
 	for k := 0; k < rounds; k++ {
 		for w := 0; w < workers; w++ {
 			ops = append(ops, fmt.Sprintf("tickw %d", w))
 		}
 	}
-	for k := 0; k < 2*u+2; k++ {
-		ops = append(ops, "drain")
-	}
-	ops = append(ops, "check")
+	ops = append(ops, "flush", "check")
 	return kit.Case{Header: fmt.Sprintf("workers=%d cap=%d dry=%d max=%d u=%d", workers, cap, dry, max, u), Ops: ops}
 }
 
@@ -570,6 +571,21 @@ func (r *runner) Do(op []string) (string, bool) {
 		r.gate.Barrier(r.sentinel())
 		fw := r.untilSentinel()
 		return fmt.Sprintf("%d %s", idOf(s.TraceID), fwdStr(fw)), true
+	case "flush":
+		var parts []string
+		for {
+			s, ok := r.gate.ReleaseOne()
+			if !ok {
+				break
+			}
+			r.gate.Barrier(r.sentinel())
+			fw := r.untilSentinel()
+			parts = append(parts, fmt.Sprintf("%d %s", idOf(s.TraceID), fwdStr(fw)))
+		}
+		if len(parts) == 0 {
+			return "empty", true
+		}
+		return strings.Join(parts, ";"), true
 	case "reload":
 		gen, dry := arg(1), arg(2) == 1
 		if gen < 0 {
